@@ -40,39 +40,100 @@ package dtls
 //@ guardedby Listener.connToCertMutex: connToCert
 //@ guardedby Listener.connMapMutex: connMap
 
-//@ func (l *Listener) registerCert(connID [32]byte, clientCert *tls.Certificate, serverCert *tls.Certificate) error
+//@ func (l *Listener) registerCert(connID [28]byte, clientCert *tls.Certificate, serverCert *tls.Certificate) error
 //@   requires l != nil && l.connToCert != nil && !held(&l.connToCertMutex)
 //@   ensures @C16: !held(&l.connToCertMutex)
 //@   ensures @C16: old(l.connToCert[connID] != nil) ==> result != nil && l.connToCert[connID] == old(l.connToCert[connID])
 //@   ensures @C16: old(l.connToCert[connID] == nil) ==> result == nil && l.connToCert[connID] != nil && l.connToCert[connID].clientCert == clientCert && l.connToCert[connID].serverCert == serverCert
 //@   assigns mapof(l.connToCert), held(&l.connToCertMutex), acq(&l.connToCertMutex)
 
-//@ func (l *Listener) removeCert(connID [32]byte)
+//@ func (l *Listener) removeCert(connID [28]byte)
 //@   requires l != nil && !held(&l.connToCertMutex)
 //@   ensures @C16: !held(&l.connToCertMutex) && !(connID in l.connToCert)
 //@   assigns mapof(l.connToCert), held(&l.connToCertMutex), acq(&l.connToCertMutex)
 
-//@ func (l *Listener) registerChannel(connID [32]byte) (<-chan net.Conn, error)
+//@ func (l *Listener) registerChannel(connID [28]byte) (<-chan net.Conn, error)
 //@   requires l != nil && l.connMap != nil && !held(&l.connMapMutex)
 //@   ensures @C16: !held(&l.connMapMutex)
 //@   ensures @C16: old(l.connMap[connID] != nil) ==> result1 != nil && l.connMap[connID] == old(l.connMap[connID])
 //@   ensures @C16: old(l.connMap[connID] == nil) ==> result1 == nil && result0 != nil && l.connMap[connID] == result0
 //@   assigns mapof(l.connMap), held(&l.connMapMutex), acq(&l.connMapMutex)
 
-//@ func (l *Listener) removeChannel(connID [32]byte)
+//@ func (l *Listener) removeChannel(connID [28]byte)
 //@   requires l != nil && !held(&l.connMapMutex)
 //@   ensures @C16: !held(&l.connMapMutex) && !(connID in l.connMap)
 //@   assigns mapof(l.connMap), held(&l.connMapMutex), acq(&l.connMapMutex)
 
-//@ func (l *Listener) getCert(id [32]byte) (*certPair, error)
+//@ func (l *Listener) getCert(id [28]byte) (*certPair, error)
 //@   requires l != nil && !held(&l.connToCertMutex)
 //@   ensures @C16: !held(&l.connToCertMutex)
 //@   ensures @C16: result1 == nil ==> id in l.connToCert && result0 == l.connToCert[id]
 //@   ensures @C16: result1 != nil ==> !(id in l.connToCert)
 //@   assigns held(&l.connToCertMutex), acq(&l.connToCertMutex)
 
-//@ func (l *Listener) chFromID(id [32]byte) (chan<- net.Conn, error)
+//@ func (l *Listener) chFromID(id [28]byte) (chan<- net.Conn, error)
 //@   requires l != nil && !held(&l.connMapMutex)
 //@   ensures @C16: !held(&l.connMapMutex)
 //@   ensures @C16: result1 == nil ==> id in l.connMap && result0 == l.connMap[id]
 //@   assigns held(&l.connMapMutex), acq(&l.connMapMutex)
+
+// derivations from the secret (deterministic key, certificate and hello-random from HKDF(secret); not analysed here)
+//@ func certsFromSeed(seed []byte) (*tls.Certificate, *tls.Certificate, error)
+//@   assigns nothing
+//@   trusted
+//@ func clientHelloRandomFromSeed(seed []byte) ([28]byte, error)
+//@   assigns nothing
+//@   trusted
+
+//@ func randomCertificate() (*tls.Certificate, error)
+//@   assigns nothing
+//@   trusted
+
+// One accept. certErr / chanErr: the answers of the two registrations for this acceptor's identifier.
+//  - the identifier whose certificate is registered is the identifier whose channel is registered and awaited;
+//  - the certificate entry is removed only by the acceptor that registered it, and the channel entry likewise
+//    (so an acceptor refused as a duplicate never removes the first acceptor's entries);
+//  - on EVERY return after a successful registration - delivery, cancellation, or a refused channel - the
+//    identifier is in neither table any more ("an accept that is cancelled leaves nothing registered").
+//@ func (l *Listener) acceptDTLSConn(ctx context.Context, config *Config) (net.Conn, error)
+//@   requires l != nil && config != nil && ctx != nil && l.connToCert != nil && l.connMap != nil && !held(&l.connToCertMutex) && !held(&l.connMapMutex)
+//@   atcall registerCert after: snap certErr := res
+//@   atcall registerChannel before: assert @C16: arg1 == connID && defined(certErr) && certErr == nil
+//@   atcall registerChannel after: snap chanErr := res1
+//@   atcall removeCert before: assert @C16: arg1 == connID && defined(certErr) && certErr == nil
+//@   atcall removeChannel before: assert @C16: arg1 == connID && defined(chanErr) && chanErr == nil
+//@   ensures @C16: !held(&l.connToCertMutex) && !held(&l.connMapMutex)
+//@   ensures @C16: defined(certErr) && certErr == nil ==> !(connID in l.connToCert)
+//@   ensures @C16: defined(chanErr) && chanErr == nil ==> !(connID in l.connMap)
+
+// "server certificate chosen by the client's hello-random": for a registered hello-random the certificate presented
+// is the server certificate registered under it (an unregistered one gets a throw-away random certificate).
+//@ func (l *Listener) getCertificateFromClientHello(clientHello *dtls.ClientHelloInfo) (*tls.Certificate, error)
+//@   requires l != nil && clientHello != nil && !held(&l.connToCertMutex)
+//@   ensures @C16: !held(&l.connToCertMutex)
+//@   ensures @C16: len(clientHello.CipherSuites) > 0 && clientHello.RandomBytes in l.connToCert ==> result1 == nil && result0 == l.connToCert[clientHello.RandomBytes].serverCert
+
+//@ func verifyCert(cert []byte, correct []byte) error
+//@   assigns nothing
+//@   trusted
+//@ func (s *dtls.State) RemoteRandomBytes() [28]byte
+//@   assigns nothing
+
+// "peer certificate verified against the derived one": the handshake is accepted only if verifyCert succeeded on the
+// peer's single certificate against the CLIENT certificate registered under the peer's hello-random.
+//@ func (l *Listener) verifyConnection(state *dtls.State) error
+//@   requires l != nil && state != nil && !held(&l.connToCertMutex)
+//@   atcall getCert after: snap regd := res0
+//@   atcall getCert after: snap regErr := res1
+//@   atcall verifyCert before: assert @C16: defined(regd) && regErr == nil && regd != nil && len(state.PeerCertificates) == 1 && arg0 == state.PeerCertificates[0] && arg1 == regd.clientCert.Certificate[0]
+//@   atcall verifyCert after: snap vErr := res
+//@   ensures @C16: result == nil ==> defined(vErr) && vErr == nil
+//@   ensures @C16: !held(&l.connToCertMutex)
+
+// client side: the server's certificate is accepted only if verifyCert succeeded on the single certificate presented
+// against the SERVER certificate derived from the same secret
+//@ import x509 "crypto/x509"
+//@ func dtlsCtx$1(rawCerts [][]byte, verifiedChains [][]*x509.Certificate) error
+//@   atcall verifyCert before: assert @C16: len(rawCerts) == 1 && arg0 == rawCerts[0] && arg1 == serverCert.Certificate[0]
+//@   atcall verifyCert after: snap vErr := res
+//@   ensures @C16: result == nil ==> defined(vErr) && vErr == nil
